@@ -88,3 +88,32 @@ type RWide struct {
 	Next *RWide   `frugal:"30,optional,RWide"`
 	Tail string   `frugal:"31,optional,string"`
 }
+
+// NCD has nocopy fields AND declared defaults: a decoder shortcut for "the wire value equals the
+// default" must still make nocopy fields views of the input.
+type NCD struct {
+	S  string  `frugal:"1,default,string,nocopy"`
+	B  []byte  `frugal:"2,default,binary,nocopy"`
+	PS *string `frugal:"3,optional,string,nocopy"`
+	O  string  `frugal:"4,optional,string,nocopy"`
+	P  string  `frugal:"5,default,string"`
+}
+
+// NCDDefaults are the values (*NCD).InitDefault assigns, by field id.
+var NCDDefaults = map[uint16]string{1: "dflt-S", 2: "dflt-B", 3: "dflt-PS", 4: "dflt-O", 5: "dflt-P"}
+
+func (p *NCD) InitDefault() {
+	p.S = "dflt-S"
+	p.B = []byte("dflt-B")
+	s := "dflt-PS"
+	p.PS = &s
+	p.O = "dflt-O"
+	p.P = "dflt-P"
+}
+
+// NCDOuter nests NCD where the decoder creates structs.
+type NCDOuter struct {
+	N *NCD   `frugal:"1,optional,NCD"`
+	L []*NCD `frugal:"2,default,list<NCD>"`
+	V NCD    `frugal:"3,default,NCD"`
+}
